@@ -59,7 +59,8 @@ NEWISH = ("NEW", "NEWRESOLVE", "SUCCEEDED")
 
 
 # the statement quantifies over "detached ... even if that circuit closed first": opt in to the extra world op
-WEIGHTS = dict(torworld.DEFAULT_WEIGHTS, s_detach_doomed=2)
+# ... and to the silent detach of a controller re-attachment (the stream is next reported with circuit id 0)
+WEIGHTS = dict(torworld.DEFAULT_WEIGHTS, s_detach_doomed=2, s_silent_reattach=2)
 
 
 def cases():
